@@ -657,7 +657,8 @@ func init() {
 		d := &ev.Driver{
 			Prop: p, Level: "exploration", Rule: decRule, Assumptions: decAssumptions,
 			Run: decodeEnumRun(p), Replay: decodeEnumReplay(p),
-			Alt: []string{"noasm"},
+			Alt:          []string{"noasm"},
+			StallSeconds: 120,
 			Crash: func(crumb []byte, tail string) *ev.Finding {
 				parts := bytes.SplitN(crumb, []byte{'|'}, 4)
 				if len(parts) != 4 {
@@ -666,6 +667,12 @@ func init() {
 				dl, _ := strconv.Atoi(string(parts[1]))
 				dk, _ := strconv.Atoi(string(parts[2]))
 				k := decCase{Fam: string(parts[0]), DstLen: dl, DictLen: dk, src: parts[3]}
+				if strings.Contains(tail, "verif: stalled") {
+					if p != "C03" {
+						return &ev.Finding{Sig: "a decoder call does not return (see C03)", What: "stalled", Case: k.frozen()}
+					}
+					return &ev.Finding{Sig: "a block decoder does not return (it loops forever on some input)", What: fmt.Sprintf("fam=%s src=%x dst_len=%d dict_len=%d", k.Fam, k.src, dl, dk), Case: k.frozen()}
+				}
 				cls := "fatal error"
 				for _, l := range strings.Split(tail, "\n") {
 					if strings.HasPrefix(l, "fatal error:") || strings.HasPrefix(l, "runtime: ") || strings.HasPrefix(l, "unexpected fault") {
